@@ -1,4 +1,26 @@
-"""Kani path (DESIGN 3.2) - filled in below."""
+"""Kani path (DESIGN 3.2): rsync the working tree of the crate to scratch, inject harness modules as
+children of the module whose private items they need, run `cargo kani`, parse per-check results.
+
+Loop-free harnesses over full-domain kani::any() are `complete`; harnesses with #[kani::unwind] are
+`bounded(n)` and are never counted as proved."""
+import json
+import os
+import re
+import shutil
+import struct
+import subprocess
+import tempfile
+import time
+
+VERIF = os.path.dirname(os.path.dirname(os.path.abspath(__file__)))
+REPO = os.environ.get('VERIF_REPO', '/repo')
+CRATE = os.path.join(REPO, 'jmespath')
+if os.environ.get('VERIF_REPO_SRC'):
+    CRATE = os.path.dirname(os.environ['VERIF_REPO_SRC'].rstrip('/'))
+
+COUNTED_CLASSES = ('assertion', 'arithmetic_overflow', 'unwind', 'pointer', 'pointer_dereference', 'bounds',
+                   'array_bounds', 'division-by-zero', 'cover', 'unreachable', 'overflow', 'unwinding assertion', 'safety_check')
+IGNORED_CLASSES = ('NaN', 'float', 'sanity_check', 'unsupported_construct')
 
 
 class KaniResult:
@@ -7,13 +29,251 @@ class KaniResult:
         self.undecided_reason = None
         self.harnesses = []
         self.cmd = ''
+        self.diff_note = ''
 
     def to_json(self):
-        return {'status': self.status, 'undecided_reason': self.undecided_reason, 'harnesses': self.harnesses, 'cmd': self.cmd}
+        return {'status': self.status, 'undecided_reason': self.undecided_reason, 'harnesses': self.harnesses,
+                'cmd': self.cmd, 'injected': self.diff_note}
 
 
-def run_harnesses(names, tier):
+def load_cfg():
+    return json.load(open(os.path.join(VERIF, 'config', 'kani.json')))
+
+
+def decode(vals, types):
+    out = []
+    for v, t in zip(vals, types):
+        b = bytes(v)
+        try:
+            if t == 'f64':
+                x = struct.unpack('<d', b)[0]
+                out.append({'type': 'f64', 'value': repr(x), 'bits': '0x%016x' % struct.unpack('<Q', b)[0]})
+            elif t == 'char':
+                cp = struct.unpack('<I', b)[0]
+                out.append({'type': 'char', 'value': 'U+%04X' % cp})
+            elif t == 'usize':
+                out.append({'type': 'usize', 'value': struct.unpack('<Q', b)[0]})
+            elif t == 'i32':
+                out.append({'type': 'i32', 'value': struct.unpack('<i', b)[0]})
+            else:
+                out.append({'type': t, 'bytes': list(b)})
+        except Exception:
+            out.append({'type': t, 'bytes': list(b)})
+    return out
+
+
+def parse_output(text, names):
+    """-> {harness: {'checks': [(class, status, desc, loc)], 'verdict': str, 'playback': [[bytes]...], 'time': float}}"""
+    res = {}
+    cur = None
+    pb = None
+    for line in text.split('\n'):
+        m = re.match(r'Checking harness ([\w:]+)', line)
+        if m:
+            cur = m.group(1).split('::')[-1]
+            res[cur] = {'checks': [], 'verdict': None, 'playback': [], 'time': None, 'stubs': []}
+            continue
+        m = re.match(r'Concrete playback unit test for `([\w:]+)`', line)
+        if m:
+            pb = m.group(1).split('::')[-1]
+            res.setdefault(pb, {'checks': [], 'verdict': None, 'playback': [], 'time': None, 'stubs': []})
+            continue
+        if pb is not None:
+            m = re.match(r'\s*vec!\[([0-9, ]*)\],?', line)
+            if m:
+                res[pb]['playback'].append([int(x) for x in m.group(1).split(',') if x.strip()])
+            if line.startswith('}'):
+                pb = None
+            continue
+        if cur is None:
+            continue
+        m = re.match(r'Check \d+: (\S+)', line)
+        if m:
+            res[cur]['_pending'] = {'id': m.group(1)}
+            continue
+        p = res[cur].get('_pending')
+        if p is not None:
+            m = re.match(r'\s*- Status: (\w+)', line)
+            if m:
+                p['status'] = m.group(1)
+            m = re.match(r'\s*- Description: "(.*)"', line)
+            if m:
+                p['desc'] = m.group(1).replace('\\"', '').strip('"')
+            m = re.match(r'\s*- Location: (.*)', line)
+            if m:
+                p['loc'] = m.group(1)
+                res[cur]['checks'].append(p)
+                res[cur]['_pending'] = None
+        m = re.match(r'VERIFICATION:- (\w+)', line)
+        if m:
+            res[cur]['verdict'] = m.group(1)
+        m = re.match(r'Verification Time: ([\d.]+)s', line)
+        if m:
+            res[cur]['time'] = float(m.group(1))
+        m = re.match(r'\s*- Stub: (.*)', line)
+        if m:
+            res[cur]['stubs'].append(m.group(1))
+    return res
+
+
+def parse_terse(text):
+    """terse / parallel output: per harness verdict, 'X of Y failed', failed check descriptions"""
+    res = {}
+    # split by thread blocks: a block starts at 'Thread N: \nVERIFICATION RESULT' ; the harness of a thread is
+    # the last 'Thread N: Checking harness H' seen for that thread
+    cur_of_thread = {}
+    cur = None
+    for line in text.split('\n'):
+        m = re.match(r'(?:Thread (\d+): )?Checking harness ([\w:]+)', line)
+        if m:
+            name = m.group(2).split('::')[-1]
+            cur_of_thread[m.group(1) or '0'] = name
+            res[name] = {'verdict': None, 'total': 0, 'failed_n': 0, 'failed': [], 'time': None}
+            if m.group(1) is None:
+                cur = name
+            continue
+        m = re.match(r'Thread (\d+):\s*$', line)
+        if m:
+            cur = cur_of_thread.get(m.group(1))
+            continue
+        if cur is None:
+            continue
+        m = re.search(r'\*\* (\d+) of (\d+) failed', line)
+        if m:
+            res[cur]['failed_n'] = int(m.group(1))
+            res[cur]['total'] = int(m.group(2))
+        m = re.match(r'\s*Failed Checks: (.*)', line)
+        if m:
+            res[cur]['failed'].append({'desc': m.group(1).strip().strip('"'), 'loc': ''})
+        m = re.match(r'\s*File: (.*)', line)
+        if m and res[cur]['failed']:
+            res[cur]['failed'][-1]['loc'] = m.group(1)
+        m = re.match(r'VERIFICATION:- (\w+)', line)
+        if m:
+            res[cur]['verdict'] = m.group(1)
+        m = re.match(r'Verification Time: ([\d.]+)s', line)
+        if m:
+            res[cur]['time'] = float(m.group(1))
+    return res
+
+
+IGNORED_DESC = ('NaN on', 'is NaN', 'overflow on floating-point', 'arithmetic overflow on floating')
+
+
+def check_class(cid):
+    # ids look like  module::fn.assertion.1  /  fn.arithmetic_overflow.2 / ... .NaN.1
+    parts = cid.split('.')
+    return parts[-2] if len(parts) >= 2 else cid
+
+
+def run_harnesses(names, tier, timeout=None):
+    cfg = load_cfg()
     r = KaniResult()
-    r.status = 'undecided'
-    r.undecided_reason = 'kani path not built yet'
-    return r
+    t0 = time.time()
+    scratch = tempfile.mkdtemp(prefix='vf_kani_')
+    try:
+        crate = os.path.join(scratch, 'jmespath')
+        subprocess.run(['rsync', '-a', '--exclude', 'target', CRATE + '/', crate + '/'], check=True)
+        injected = []
+        mods = sorted(set(cfg['harnesses'][n]['module'] for n in names))
+        for mod in mods:
+            mc = cfg['modules'][mod]
+            shutil.copy(os.path.join(VERIF, 'kani', mod + '.rs'), os.path.join(crate, 'src', mod + '.rs'))
+            parent = os.path.join(crate, 'src', mc['parent'])
+            with open(parent, 'a') as f:
+                f.write('\n#[cfg(kani)]\n#[path = "%s.rs"]\nmod %s;\n' % (mod, mod))
+            injected.append('%s appended to src/%s as child module' % (mod, mc['parent']))
+        r.diff_note = '; '.join(injected)
+        # offline
+        os.makedirs(os.path.join(crate, '.cargo'), exist_ok=True)
+        with open(os.path.join(crate, '.cargo', 'config.toml'), 'w') as f:
+            f.write('[net]\noffline = true\n')
+        env = dict(os.environ, CARGO_NET_OFFLINE='true', CARGO_TARGET_DIR=os.path.join(scratch, 'target'))
+        env.pop('RUSTUP_TOOLCHAIN', None)
+        to = timeout or int(os.environ.get('VERIF_KANI_TIMEOUT', '1500' if tier == 'quick' else '5400'))
+
+        def invoke(hs, playback):
+            cmd = ['cargo', 'kani', '-Z', 'function-contracts', '-Z', 'stubbing']
+            if playback:
+                cmd += ['--output-format', 'regular', '-Z', 'concrete-playback', '--concrete-playback=print']
+            else:
+                cmd += ['--output-format', 'terse', '-j', str(min(len(hs), 8))]
+            for n in hs:
+                cmd += ['--harness', n]
+            pp = subprocess.run(cmd, cwd=crate, env=env, capture_output=True, text=True, timeout=to)
+            return cmd, pp.stdout + '\n' + pp.stderr
+
+        try:
+            cmd, out = invoke(names, False)
+        except subprocess.TimeoutExpired:
+            r.status = 'undecided'
+            r.undecided_reason = 'kani timeout after %ds' % to
+            return r
+        r.cmd = 'CARGO_NET_OFFLINE=true ' + ' '.join(cmd) + '   (in a scratch rsync copy of /repo/jmespath with kani/*.rs injected; harnesses with failed checks are re-run with --output-format regular -Z concrete-playback --concrete-playback=print)'
+        terse = parse_terse(out)
+        for n in names:
+            hc = cfg['harnesses'][n]
+            h = {'harness': n, 'bounded': hc.get('bounded'), 'complete': not hc.get('bounded'),
+                 'properties': hc['properties'], 'status': 'ok', 'checks_total': 0, 'checks_failed': 0,
+                 'ignored_checks': 0, 'failures': [], 'time_s': None, 'stubs': [],
+                 'assertions': hc.get('assertions')}
+            t = terse.get(n)
+            if not t or t['verdict'] is None:
+                h['status'] = 'undecided'
+                r.status = 'undecided'
+                r.undecided_reason = 'no verdict for harness %s: %s' % (n, out[-800:])
+                r.harnesses.append(h)
+                continue
+            h['time_s'] = t['time']
+            real = [f for f in t['failed'] if not any(x in f['desc'] for x in IGNORED_DESC)]
+            ign = len(t['failed']) - len(real)
+            h['ignored_checks'] = ign
+            h['checks_total'] = max(t['total'] - ign, 0)
+            h['checks_failed'] = len(real)
+            wit = None
+            if real:
+                try:
+                    _, out2 = invoke([n], True)
+                    p2 = parse_output(out2, [n]).get(n)
+                    if p2 and p2['playback']:
+                        wit = decode(p2['playback'], hc.get('decode', []))
+                except subprocess.TimeoutExpired:
+                    pass
+            for f in real:
+                desc = f['desc']
+                kind = 'assert'
+                if re.search(r'overflow|out of bounds|index|unwind|dereference|division by zero', desc):
+                    kind = 'overflow' if 'overflow' in desc or 'division' in desc else 'bounds'
+                label = re.sub(r'[^A-Za-z0-9_.-]+', '_', desc)[:60].strip('_')
+                props = list(hc.get('labels', {}).get(desc, hc['properties']))
+                if kind != 'assert' and 'C05' not in props:
+                    props.append('C05')
+                h['failures'].append({
+                    'obligation': 'kani/%s#%s:%s' % (n, kind, label), 'kind': kind, 'label': label,
+                    'properties': props, 'function': hc.get('function'), 'message': desc,
+                    'site': {'repo': hc.get('repo_location'), 'text': f['loc']},
+                    'clause': desc, 'rendered': 'Kani check FAILED: %s at %s (harness %s)' % (desc, f['loc'], n),
+                    'backend': 'kani', 'witness': wit, 'witness_key': None, 'bounded': hc.get('bounded'),
+                })
+            r.harnesses.append(h)
+        # replay witnesses on the real crate
+        for h in r.harnesses:
+            for f in h['failures']:
+                if f.get('witness'):
+                    try:
+                        import replaydrv
+                        rep = replaydrv.replay(h['harness'], f['witness'], scratch)
+                        f['replay'] = rep
+                        f['witness_replayed'] = bool(rep and rep.get('reproduced'))
+                    except Exception as e:  # replay is best effort
+                        f['replay'] = {'error': repr(e)}
+        return r
+    finally:
+        r.wall_s = time.time() - t0
+        shutil.rmtree(scratch, ignore_errors=True)
+
+
+if __name__ == '__main__':
+    import sys
+    rr = run_harnesses(sys.argv[1:], 'quick')
+    print(json.dumps(rr.to_json(), indent=1))
